@@ -368,3 +368,52 @@ def build_stage(report):
         report.violations.append(("correspondence cannot be established: %s failed" % e.what,
                                   {"obligation": e.what, "detail": e.detail, "failing_input_found": False}))
         return False
+
+
+def correspond(rep, name, cases, theorem, compare_model=True, impl_timeout=900):
+    """Run the cases on the implementation and on the extracted model/spec; report every
+    case where the implementation's observation differs from the specification's (failing
+    input found) or, failing that, from the model's (correspondence broken).
+    cases: list of (id, text, tags).  Returns dict id -> (impl, model, spec)."""
+    os.makedirs(WORK, exist_ok=True)
+    path = os.path.join(WORK, "%s.%s.cases" % (name, rep.tier))
+    with open(path, "w") as f:
+        for _, text, _ in cases:
+            f.write(text + "\n")
+    try:
+        impl = run_impl(path, timeout=impl_timeout)
+        model, spec = run_model(path)
+    except CheckFailure as e:
+        rep.violations.append(("correspondence cannot be established: " + e.what,
+                               {"obligation": e.what, "detail": e.detail, "failing_input_found": False}))
+        return None
+    distinct = set()
+    out = {}
+    dis = 0
+    for cid, text, tags in cases:
+        i, m, sp = impl.get(cid), model.get(cid), spec.get(cid)
+        out[cid] = (i, m, sp)
+        if i:
+            distinct.add(text.split(" ", 2)[2])
+        if i != sp:
+            rep.fail("implementation differs from the specification on this input",
+                     {"case": text, "impl": i, "spec": sp, "model": m, "tags": tags,
+                      "theorem": theorem, "failing_input_found": True}, tags)
+        elif compare_model and i != m:
+            dis += 1
+            rep.fail("model differs from implementation although both meet the specification's observation",
+                     {"case": text, "impl": i, "spec": sp, "model": m, "tags": tags,
+                      "correspondence": theorem, "failing_input_found": False}, tags)
+    c = rep.coverage
+    c["evaluations"] = c.get("evaluations", 0) + len(cases)
+    c["distinct_nontrivial"] = c.get("distinct_nontrivial", 0) + len(distinct)
+    c["traces_validated_against_impl"] = c.get("traces_validated_against_impl", 0) + len(cases)
+    c["full_trace_disagreements"] = c.get("full_trace_disagreements", 0) + dis
+    if cases:
+        c["samples"] = c.get("samples", []) + [cases[k][1] for k in sorted({0, len(cases) // 2, len(cases) - 1})]
+    return out
+
+
+def load_replay_case(replay):
+    r = json.load(open(replay))
+    return [("r1", re.sub(r"^\(case \S+", "(case r1", r["case"]), r.get("tags", {}))]
